@@ -248,6 +248,17 @@ func newLifecycleSession(main *env, c Case, kind lifeKind) *session {
 		}
 		one := types.NewCurrency64(1)
 		switch f.Field {
+		case "FinalRenterOutput", "FinalHostOutput", "RenterRollover", "HostRollover", "RenewalHostSignature", "RenewalRenterSignature":
+			if renewal == nil {
+				return nil // another fault of the plan has removed the renewal: nothing left to tamper with
+			}
+		case "MinerFee", "SiacoinInputs", "SiacoinOutputs", "ParentID", "Resolution":
+		default:
+			if fc == nil {
+				return nil // ... or the contract
+			}
+		}
+		switch f.Field {
 		case "MinerFee":
 			txn.MinerFee = txn.MinerFee.Add(one)
 		case "SiacoinInputs":
@@ -257,9 +268,6 @@ func newLifecycleSession(main *env, c Case, kind lifeKind) *session {
 		case "SiacoinOutputs":
 			txn.SiacoinOutputs = append(txn.SiacoinOutputs, types.SiacoinOutput{Address: hostAddr, Value: one})
 		case "FileContracts": // form: a second contract rides along
-			if fc == nil {
-				return errUnknownFault
-			}
 			txn.FileContracts = append(txn.FileContracts, *fc)
 		case "ParentID":
 			if len(txn.FileContractResolutions) == 0 {
@@ -303,7 +311,7 @@ func newLifecycleSession(main *env, c Case, kind lifeKind) *session {
 			flipSig(&fc.RenterSignature)
 		default:
 			m, ok := contractMutators[f.Field]
-			if !ok || fc == nil {
+			if !ok {
 				return errUnknownFault
 			}
 			switch f.How {
